@@ -125,7 +125,18 @@ def compute(f, loop_bound=2):
                 "asserts": tuple(e[1] for e in o["events"] if e[0] == "assert"),
                 "flags": tuple(sorted(o["flags"])),
             } for o in outs]
-    out = {"loop_bound": loop_bound, "evaluator": disp["fn"], "coroutine": disp["coroutine"], "rows": rows, "opfns": opfns,
+    # which operator cells a panic site belongs to: (function, assert message) / callee name -> {(kind, operand tags)}
+    site_cells = {}
+    for kind, tab in raw_k.items():
+        for combo, outs in tab.items():
+            for o in outs:
+                for e in o["events"]:
+                    if e[0] == "assert" and len(e) > 2:
+                        site_cells.setdefault(("assert", e[2], str(e[1]).split(":")[0]), set()).add((kind, tuple(combo)))
+                for nm_, where_ in (o.get("call_sites") or {}).items():
+                    for w_ in where_:
+                        site_cells.setdefault(("call", w_, short_callee(nm_)), set()).add((kind, tuple(combo)))
+    out = {"loop_bound": loop_bound, "evaluator": disp["fn"], "coroutine": disp["coroutine"], "rows": rows, "opfns": opfns, "site_cells": site_cells,
            "op_of_kind": {k: sorted(v) for k, v in op_of_kind.items()}, "cells": cells, "cells_by_kind": cells_by_kind}
     # the context's lookup methods are private: they are named after their role (the method a Reference / Symbol /
     # Function node calls) so that the specification does not depend on what the crate calls them today
